@@ -267,10 +267,6 @@ func runC07(tier string) int {
 	if tier == "thorough" {
 		maxLen = 6
 	}
-	fc := &parser.FontConfig{DefaultFontID: "f1", Fonts: map[string]parser.Fonts{}}
-	for _, f := range synthFonts {
-		fc.Fonts[f.id] = parser.Fonts{Widths: f.widths, MaxLineLength: 10, NumLines: 2, CursorOverlapWidth: 0}
-	}
 	nA := uint64(len(atoms))
 	completed := 0
 	for L := 0; L <= maxLen && !r.Expired(); L++ {
@@ -285,53 +281,39 @@ func runC07(tier string) int {
 				seq[i] = atoms[x%nA]
 				x /= nA
 			}
-			for _, f := range synthFonts {
-				text, toks := tokensOf(seq, f)
-				// longest possible line: all words on one line
-				longest := 0
-				for _, t := range toks {
-					if t.brk == "" {
-						longest += t.width + f.w(" ")
-					}
+			c07Sequence(seq, func(c c07Call) {
+				r.Add("evaluations", 1)
+				if c.err != nil {
+					r.Report(harness.Violation{Sig: "C07:error", Summary: fmt.Sprintf("FormatText(%q) returned error %v", c.text, c.err), Replay: map[string]interface{}{"text": c.text, "error": c.err.Error()}})
+					return
 				}
-				for _, numLines := range []int{1, 2, 3} {
-					for _, overlap := range []int{0, 1, 3, 40} {
-						if overlap == 40 && L > 3 {
-							continue
-						}
-						for maxW := 1; maxW <= longest+1; maxW++ {
-							out, err := fc.FormatText(text, maxW, overlap, f.id, numLines)
-							r.Add("evaluations", 1)
-							if err != nil {
-								r.Report(harness.Violation{Sig: "C07:error", Summary: fmt.Sprintf("FormatText(%q) returned error %v", text, err), Replay: map[string]interface{}{"text": text, "error": err.Error()}})
-								continue
-							}
-							problem, ab, am := checkFormatted(out, toks, f, maxW, overlap, numLines)
-							if ab > 0 {
-								r.Add("nontrivial", 1)
-								r.Add("automatic_breaks", int64(ab))
-							}
-							r.Add("lines_exactly_at_max", int64(am))
-							if problem != "" {
-								tx, fid, mw, ov, nl := text, f.id, maxW, overlap, numLines
-								ff, tk := f, toks
-								r.Report(harness.Violation{
-									Sig:     "C07:" + firstWords(problem, 3),
-									Summary: fmt.Sprintf("FormatText(%q, maxWidth=%d, cursorOverlap=%d, font=%s, numLines=%d) = %q: %s", text, maxW, overlap, f.id, numLines, out, problem),
-									Replay:  map[string]interface{}{"text": text, "maxLineLength": maxW, "cursorOverlapWidth": overlap, "fontId": f.id, "numLines": numLines, "font_widths": f.widths, "output": out, "problem": problem},
-									Recheck: func() bool {
-										o2, _ := fc.FormatText(tx, mw, ov, fid, nl)
-										p2, _, _ := checkFormatted(o2, tk, ff, mw, ov, nl)
-										return p2 != ""
-									},
-								})
-							} else if ab >= 2 && r.WantSample() {
-								r.Sample(map[string]interface{}{"text": text, "maxLineLength": maxW, "cursorOverlapWidth": overlap, "fontId": f.id, "numLines": numLines, "output": out})
-							}
-						}
-					}
+				problem, ab, am := checkFormatted(c.out, c.toks, c.font, c.maxW, c.overlap, c.numLines)
+				if ab > 0 {
+					r.Add("nontrivial", 1)
+					r.Add("automatic_breaks", int64(ab))
 				}
-			}
+				r.Add("lines_exactly_at_max", int64(am))
+				if problem != "" {
+					bad := c
+					r.Report(harness.Violation{
+						Sig:     "C07:" + firstWords(problem, 3),
+						Summary: fmt.Sprintf("FormatText(%q, maxWidth=%d, cursorOverlap=%d, font=%s, numLines=%d) = %q: %s", c.text, c.maxW, c.overlap, c.font.id, c.numLines, c.out, problem),
+						Replay:  map[string]interface{}{"text": c.text, "maxLineLength": c.maxW, "cursorOverlapWidth": c.overlap, "fontId": c.font.id, "numLines": c.numLines, "font_widths": c.font.widths, "output": c.out, "problem": problem, "note": "calls are made on one FontConfig per text, in the order fonts x numLines x overlap x maxLineLength"},
+						Recheck: func() bool {
+							again := false
+							c07Sequence(seq, func(d c07Call) {
+								if d.font.id == bad.font.id && d.maxW == bad.maxW && d.overlap == bad.overlap && d.numLines == bad.numLines && d.err == nil {
+									p2, _, _ := checkFormatted(d.out, d.toks, d.font, d.maxW, d.overlap, d.numLines)
+									again = p2 != ""
+								}
+							})
+							return again
+						},
+					})
+				} else if ab >= 2 && r.WantSample() {
+					r.Sample(map[string]interface{}{"text": c.text, "maxLineLength": c.maxW, "cursorOverlapWidth": c.overlap, "fontId": c.font.id, "numLines": c.numLines, "output": c.out})
+				}
+			})
 		})
 		if done {
 			completed = L
@@ -348,6 +330,48 @@ func runC07(tier string) int {
 		"the word/break sequence of a text is known from the generator's atoms; the compiler's own tokeniser is not consulted")
 	return r.Finish(r.Get("evaluations"), r.Get("nontrivial"),
 		"every sequence of <= L atoms (3 plain words, a multi-byte word, 2 control codes incl. one with an inner space, single/double space, \\n \\l \\p \\N, a raw newline) x 2 synthetic fonts (with/without default width, space width 1 and 3) x numLines 1..3 x cursorOverlap {0,1,3,40} x every maxLineLength from 1 to longest line+1, called through the exported FormatText; plus a cross-product of format() spellings compiled end to end; non-trivial = the output contains >= 1 automatic break")
+}
+
+type c07Call struct {
+	text     string
+	toks     []fmtTok
+	font     synthFont
+	numLines int
+	overlap  int
+	maxW     int
+	out      string
+	err      error
+}
+
+// c07Sequence makes every call for one atom sequence on ONE fresh FontConfig (so that anything a call
+// leaves behind in the config - a cache, a mutated table - reaches the later calls of the same text, which
+// use the other font and other parameters), in a fixed order.
+func c07Sequence(seq []fmtAtom, visit func(c07Call)) {
+	fc := &parser.FontConfig{DefaultFontID: "f1", Fonts: map[string]parser.Fonts{}}
+	for _, f := range synthFonts {
+		fc.Fonts[f.id] = parser.Fonts{Widths: f.widths, MaxLineLength: 10, NumLines: 2, CursorOverlapWidth: 0}
+	}
+	L := len(seq)
+	for _, f := range synthFonts {
+		text, toks := tokensOf(seq, f)
+		longest := 0
+		for _, t := range toks {
+			if t.brk == "" {
+				longest += t.width + f.w(" ")
+			}
+		}
+		for _, numLines := range []int{1, 2, 3} {
+			for _, overlap := range []int{0, 1, 3, 40} {
+				if overlap == 40 && L > 3 {
+					continue
+				}
+				for maxW := 1; maxW <= longest+1; maxW++ {
+					out, err := fc.FormatText(text, maxW, overlap, f.id, numLines)
+					visit(c07Call{text, toks, f, numLines, overlap, maxW, out, err})
+				}
+			}
+		}
+	}
 }
 
 // c07Compiled drives format() through the compiler (text statement and command
@@ -415,7 +439,9 @@ func c07Compiled(r *harness.Run) {
 					if ov == 0 {
 						ov = cfg.Fonts[font].CursorOverlapWidth
 					}
-					want, _ := cfg.FormatText(text, ml, ov, font, nl)
+					var freshCfg parser.FontConfig
+					json.Unmarshal(b, &freshCfg)
+					want, _ := freshCfg.FormatText(text, ml, ov, font, nl)
 					var src, label string
 					if origin == "text" {
 						src, label = fmt.Sprintf("text T {\n\tformat(\"%s\"%s)\n}\n", text, s.args), "T::"
@@ -443,6 +469,48 @@ func c07Compiled(r *harness.Run) {
 						r.Report(harness.Violation{Sig: "C07:compiled-differs:" + origin, Summary: fmt.Sprintf("format(%s) default font %q default length %d: emitted\n%s\nwant (FormatText with font=%s maxLineLength=%d numLines=%d overlap=%d)\n%s", s.args, defFont, defLen, got, font, ml, nl, ov, strings.Join(wantLines, "\n")),
 							Replay: map[string]interface{}{"source": src, "font_config": cfg, "default_font": defFont, "default_length": defLen}})
 					}
+				}
+			}
+		}
+	}
+	// Two format() calls in one file on the same words with different fonts / lengths: each must be
+	// formatted as if it were alone (nothing may carry over from one call to the next).
+	text2 := `a {P} bb{P} cac é {C R} a bb`
+	type fp struct {
+		font string
+		ml   int
+	}
+	ps := []fp{{"f1", 9}, {"f2", 9}, {"f1", 13}, {"f2", 16}, {"f2", 7}}
+	for i, a := range ps {
+		for j, bb := range ps {
+			if i == j {
+				continue
+			}
+			src := fmt.Sprintf("text A {\n\tformat(\"%s\", \"%s\", %d)\n}\ntext B {\n\tformat(\"%s\", \"%s\", %d)\n}\n", text2, a.font, a.ml, text2, bb.font, bb.ml)
+			res := comp.Compile(src, comp.Opts{FontPath: fpath})
+			r.Add("evaluations", 1)
+			r.Add("compiled_format_pairs", 1)
+			r.Add("nontrivial", 1)
+			if res.Err != nil || res.Panic != "" {
+				r.Report(harness.Violation{Sig: "C07:compile-pair", Summary: fmt.Sprintf("two format() calls rejected: %v\n  source: %q", res.Err, src), Replay: map[string]interface{}{"source": src}})
+				continue
+			}
+			for k, q := range []fp{a, bb} {
+				var fresh parser.FontConfig // a fresh, unshared configuration
+				json.Unmarshal(b, &fresh)
+				want, _ := fresh.FormatText(text2, q.ml, cfg.Fonts[q.font].CursorOverlapWidth, q.font, cfg.Fonts[q.font].NumLines)
+				var wantLines []string
+				for _, l := range strings.Split(want+"$", "\n") {
+					wantLines = append(wantLines, "\t.string \""+l+"\"")
+				}
+				label := []string{"A", "B"}[k]
+				got, _ := blockAfter(res.Out, label)
+				if len(got) > 0 {
+					got = got[1:]
+				}
+				if strings.Join(got, "\n") != strings.Join(wantLines, "\n") {
+					r.Report(harness.Violation{Sig: "C07:compiled-pair-differs", Summary: fmt.Sprintf("text %s of a file with two format() calls (%v then %v) is emitted as\n%s\nalone it is formatted as\n%s", label, a, bb, strings.Join(got, "\n"), strings.Join(wantLines, "\n")),
+						Replay: map[string]interface{}{"source": src, "font_config": cfg}})
 				}
 			}
 		}
